@@ -5,8 +5,47 @@ from ..runner import Failure
 from .. import gen
 from ..gen import ClassGen
 
+# The spec driver is a process per call; the oracles ask it thousands of small questions.  Answers are
+# cached by request line, and `prefetch` runs a list of checks in "collect" mode (a check stops at the
+# first question without an answer) so that the questions of a whole batch are asked in one call.
+_SPEC_CACHE = {}
+_COLLECT = None
+
+class _NeedSpec(BaseException):
+    pass
+
 def _spec(lines):
-    return run_driver(lines, exe=SPECDRIVER)
+    missing = [l for l in lines if l not in _SPEC_CACHE]
+    if missing:
+        if _COLLECT is not None:
+            _COLLECT.extend(missing)
+            raise _NeedSpec()
+        uniq = list(dict.fromkeys(missing))
+        for l, a in zip(uniq, run_driver(uniq, exe=SPECDRIVER)):
+            _SPEC_CACHE[l] = a
+    return [_SPEC_CACHE[l] for l in lines]
+
+def prefetch(fn, argss):
+    global _COLLECT
+    try:
+        for _ in range(5):
+            _COLLECT = []
+            for args in argss:
+                try:
+                    fn(args)
+                except _NeedSpec:
+                    pass
+                except Exception:
+                    pass
+            need, _COLLECT = list(dict.fromkeys(_COLLECT)), None
+            if not need:
+                break
+            for l, a in zip(need, run_driver(need, exe=SPECDRIVER)):
+                _SPEC_CACHE[l] = a
+    finally:
+        _COLLECT = None
+    if len(_SPEC_CACHE) > 200000:
+        _SPEC_CACHE.clear()
 
 def B(x):
     return "True" if x else "False"
@@ -60,6 +99,54 @@ def af_fields(rng, subset=None, ext_subset=None, stuffing=0, private_len=None, c
 
 def af_valid(rng):
     return af_fields(rng, stuffing=rng.choice([0, 0, 1, 5, 30]))[0]
+
+def af_combos():
+    """every subset of {PCR, OPCR, splice countdown, private data, extension{LTW, piecewise, seamless}}:
+    16 subsets without extension + 16 x 8 with an extension carrying each subset of its parts = 144"""
+    out = [(s, None) for s in range(16)]
+    out += [(16 | s, e) for s in range(16) for e in range(8)]
+    return out
+
+def combo_packets(rng, stuffings=(0, None), private_lens=(1, 2, 5, 9)):
+    """for every combination: adaptation control 2 and 3, with and without payload, each requested stuffing
+    (None = a random length that still fits)"""
+    out = []
+    for subset, ext_subset in af_combos():
+        for st in stuffings:
+            for afc in (2, 3):
+                for with_payload in (False, True):
+                    pl = rng.choice(private_lens)
+                    af, ln = af_fields(rng, subset, ext_subset=ext_subset, private_len=pl,
+                                       stuffing=(rng.randrange(1, 183 - 44) if st is None else st))
+                    if st == 0:
+                        af["length"] = "0"
+                        ln = af_fields_len(af)
+                    f = hdr_fields(rng)
+                    f["adaption_ctrl"] = str(afc)
+                    f["adaption_field"] = obj("MPEGAdaption", af)
+                    room = max(0, 183 - ln)
+                    if not with_payload:
+                        f["payload"] = "x"
+                    elif afc == 3:
+                        f["payload"] = hexb(rng.bytes_(rng.choice([room, room, max(0, room - 1), max(1, room // 2)])))
+                    else:
+                        f["payload"] = hexb(rng.bytes_(rng.choice([1, 5])))   # AFC 2 ignores it on decode
+                    out.append(f)
+    return out
+
+def af_fields_len(af):
+    """data length (bytes after the length byte, without stuffing) of generated adaptation-field texts"""
+    n = 1 + (len(af["pcr"]) - 1) // 2 + (len(af["opcr"]) - 1) // 2 + (1 if af["splice_countdown"] != "0" else 0)
+    if af["private_data"] != "x":
+        n += 1 + (len(af["private_data"]) - 1) // 2
+    if af["adaption_extension"] != "None":
+        n += 2 + sum((len(v) - 1) // 2 for v in parse_ext(af["adaption_extension"]))
+    return n
+
+def parse_ext(text):
+    inner = text[text.index("{") + 1:-1]
+    d = dict(kv.split("=") for kv in inner.split(",")) if inner else {}
+    return [d.get(k, "x") for k, _ in EXT_SIZES]
 
 HDR = [("pid", 13), ("transport_priority", 1), ("tsc", 2), ("continuitycounter", 4)]
 
@@ -127,11 +214,11 @@ def pmt_valid(rng, nd=None, ns=None):
     f["streams"] = "[" + ";".join(obj("PMTStream", stream_fields(rng)) for _ in range(ns)) + "]"
     return f
 
-def pes_valid(rng, header=None, fill=True):
+def pes_valid(rng, header=None, fill=True, hd_len=None, w2=None, afc=None):
     """PES packet; fill=True: the PES packet fills the TS packet exactly"""
     header = (rng.random() < 0.5) if header is None else header
-    afc = rng.choice([1, 3])
-    hd = rng.bytes_(rng.choice([0, 5, 5, 10])) if header else None
+    afc = rng.choice([1, 3]) if afc is None else afc
+    hd = rng.bytes_(rng.choice([0, 5, 5, 10]) if hd_len is None else hd_len) if header else None
     over = 6 + ((3 + len(hd)) if header else 0)
     room = rng.choice([over + 1, over + 20, 100, 150, 170])
     if afc == 1:
@@ -145,11 +232,24 @@ def pes_valid(rng, header=None, fill=True):
     f["pesdata"] = hexb(bytes(data))
     if header:
         f["extension_w1"] = str(0x80 | rng.randrange(16))
-        f["extension_w2"] = str(rng.boundary(8))
+        f["extension_w2"] = str(rng.boundary(8) if w2 is None else w2)
         f["header_data"] = hexb(hd)
     else:
         f["extension_w1"] = f["extension_w2"] = f["header_data"] = "None"
     return f
+
+def pes_shapes(rng):
+    """the header shapes C06 names: no optional header; a header with flags byte 0x00 and EMPTY header data
+    (no PTS/DTS); header data of several lengths -- each filling the packet exactly with (AFC 3) and without
+    (AFC 1) adaptation stuffing, and not filling it"""
+    out = []
+    for afc in (1, 3, 3):
+        for fill in (True, False):
+            out.append(pes_valid(rng, False, fill, afc=afc))
+            out.append(pes_valid(rng, True, fill, hd_len=0, w2=0, afc=afc))
+            for n in (0, 1, 5, 10, 19, 40):
+                out.append(pes_valid(rng, True, fill, hd_len=n, w2=rng.choice([0x00, 0x80, 0xC0, rng.randrange(256)]), afc=afc))
+    return out
 
 def stanag_valid(rng, header=None, avoid_k2=True):
     """a STANAG 4609 packet whose 36 bytes of metadata end exactly at byte 188 (adaptation-field stuffing)"""
@@ -233,9 +333,9 @@ def af_lines(ctx):
     rng = ctx.rng
     lines = []
     # every subset of {PCR, OPCR, splice, private data, extension} x stuffing
-    for subset in range(32):
-        for stuffing in (0, 1, 2, 17, ctx.rng.randrange(3, 120)):
-            f, _ = af_fields(rng, subset, stuffing=stuffing)
+    for subset, ext_subset in af_combos():
+        for stuffing in (0, 1, ctx.rng.randrange(2, 120)):
+            f, _ = af_fields(rng, subset, ext_subset=ext_subset, stuffing=stuffing)
             lines.append(gen.H("MPEGAdaption", gen.sets(f) + ["pack", "obs", "pack", "obs"]))
     for ext_subset in range(8):
         f, _ = af_fields(rng, 16 | rng.randrange(16), ext_subset=ext_subset)
@@ -297,14 +397,8 @@ def pkt_lines(ctx):
                     f["adaption_field"] = obj("MPEGAdaption", af_fields(rng, stuffing=rng.choice([0, 3]))[0])
                 lines.append(gen.H("MPEGPacket", gen.sets(f) + ["pack", "obs"]))
                 lines.append(gen.H("MPEGPacket", gen.sets(f) + ["pack True", "obs"]))
-    for subset in range(32):                                # every optional-part combination inside a packet
-        for stuffing in (0, rng.randrange(1, 100)):
-            af, ln = af_fields(rng, subset, stuffing=stuffing)
-            f = hdr_fields(rng)
-            f["adaption_ctrl"] = str(rng.choice([2, 3, 3]))
-            f["adaption_field"] = obj("MPEGAdaption", af)
-            f["payload"] = hexb(rng.bytes_(rng.choice([0, max(0, 183 - ln), max(0, 183 - ln - 7)])))
-            lines.append(gen.H("MPEGPacket", gen.sets(f) + ["pack", "obs"]))
+    for f in combo_packets(rng):                            # all 144 optional-part combinations x AFC 2/3 x payload x stuffing
+        lines.append(gen.H("MPEGPacket", gen.sets(f) + ["pack", "obs"]))
     for _ in range(ctx.scale(60, 3000)):                    # exactly filled packets
         lines.append(gen.H("MPEGPacket", gen.sets(pkt_exact(rng)[0]) + ["pack", "obs"]))
     for ln in range(0, 190, ctx.scale(7, 1)):               # adaptation-field length byte 0..189 with AFC 3 and 2
@@ -435,6 +529,8 @@ def pes_lines(ctx):
         for fill in (True, False):
             for _ in range(ctx.scale(12, 400)):
                 lines.append(gen.H("PES", gen.sets(pes_valid(rng, header, fill)) + ["pack", "obs"]))
+    for f in pes_shapes(rng):
+        lines.append(gen.H("PES", gen.sets(f) + ["pack", "obs"]))
     lines.append(gen.H("PES", gen.sets(K2_WITNESS) + ["pack", "obs"]))          # K2: header-less, first byte 0x8_, exact fill
     for first in range(0, 256, 8):                           # header-less exact fill, every high nibble
         f = dict(K2_WITNESS); f["pesdata"] = hexb(bytes([first]) + rng.bytes_(177))
@@ -830,6 +926,16 @@ def check_pmt(args):
         return "re-encoding the decoded MPEGPacketPMT raises %r" % (e,)
     if b2 != b:
         return "re-encoding the decoded MPEGPacketPMT gives different bytes"
+    end = 4 + len(afb) + 1 + 3 + slen                   # a corrupted CRC_32 is reported as False, not accepted
+    for i in (end - 4, end - 1):
+        m = bytearray(b); m[i] ^= 0x10
+        q = build("MPEGPacketPMT", {})
+        try:
+            r = q.unpack(bytes(m))
+        except Exception:
+            r = False
+        if r is not False:
+            return "MPEGPacketPMT.unpack returns %r for a packet whose CRC_32 byte %d is corrupted" % (r, i)
     return None
 
 def pes_wf(p):
@@ -944,6 +1050,7 @@ def oracles_C06(ctx, hints):
     mult = 4 if getattr(ctx, "search_mode", False) else 1
     def run(name, fn, cls, argss, tagsfn=None):
         nonlocal n
+        prefetch(fn, argss)
         for args in argss:
             n += 1
             try:
@@ -959,19 +1066,10 @@ def oracles_C06(ctx, hints):
     run("mpeg_ext", check_ext, "MPEGAdaptionExtension",
         [{"fields": ext_fields(rng, s), "prior": ext_fields(rng), "tail": rng.bytes_(rng.randrange(0, 4)).hex()} for s in range(8)])
     run("mpeg_af", check_af, "MPEGAdaption",
-        [{"fields": af_fields(rng, s, stuffing=st)[0], "prior": _prior(rng, af_valid)}
-         for s in range(32) for st in (0, 1, rng.randrange(2, 150))] +
-        [{"fields": af_fields(rng, 16 | rng.randrange(16), ext_subset=e)[0]} for e in range(8)] +
+        [{"fields": af_fields(rng, s, ext_subset=e, stuffing=st)[0], "prior": _prior(rng, af_valid)}
+         for s, e in af_combos() for st in (0, rng.randrange(1, 150))] +
         [{"fields": af_fields(rng, 8 | rng.randrange(8), private_len=pl)[0]} for pl in (1, 2, 100, 200)])
-    pk = []
-    for s in range(32):
-        for st in (0, rng.randrange(1, 60)):
-            af, ln = af_fields(rng, s, stuffing=st, private_len=rng.choice([1, 3, 9]))
-            for afc in (2, 3):
-                f = hdr_fields(rng); f["adaption_ctrl"] = str(afc); f["adaption_field"] = obj("MPEGAdaption", af)
-                room = max(0, 183 - ln)
-                f["payload"] = hexb(rng.bytes_(rng.choice([room, room, max(0, room - 1), room // 2, 0]))) if afc == 3 else "x"
-                pk.append({"fields": f, "prior": _prior(rng, pkt_valid)})
+    pk = [{"fields": f, "prior": _prior(rng, pkt_valid)} for f in combo_packets(rng)]
     for afc in (0, 1, 2, 3):
         for n_ in (0, 1, 90, 183, 184):
             f = hdr_fields(rng); f["adaption_ctrl"] = str(afc); f["payload"] = hexb(rng.bytes_(n_))
@@ -987,11 +1085,13 @@ def oracles_C06(ctx, hints):
     # PES: with / without the optional header, filling the packet with and without adaptation stuffing
     pes_args = [{"fields": pes_valid(rng, h, fill), "prior": _prior(rng, pes_valid)}
                 for h in (False, True) for fill in (True, False) for _ in range(ctx.scale(15, 800) * mult)]
+    pes_args += [{"fields": f, "prior": _prior(rng, pes_valid)} for f in pes_shapes(rng)]
     pes_args.append({"fields": dict(K2_WITNESS)})
     for first in range(0, 256, 16):
         f = dict(K2_WITNESS); f["pesdata"] = hexb(bytes([first | 3]) + rng.bytes_(177))
         pes_args.append({"fields": f})
     seen_k2 = False
+    prefetch(check_pes, pes_args)
     for args in pes_args:
         n += 1
         w, tags = _check_pes(args)
@@ -1172,6 +1272,7 @@ ORACLES.update({"mpeg_pmt_crc": check_pmt_crc, "mpeg_crc_fn": check_crc_fn, "mpe
 
 def _first(fails, name, cls, check, fn, argss, ctx):
     k = 0
+    prefetch(fn, argss)
     for args in argss:
         k += 1
         w = _safe(fn, args)
@@ -1307,9 +1408,10 @@ def _f2b(x):
 def pts_ticks(ctx):
     rng = ctx.rng
     t = [0, 1, 2, 26, 27, 2 ** 15 - 1, 2 ** 15, 2 ** 15 + 1, 2 ** 30 - 1, 2 ** 30, 2 ** 30 + 1, 2 ** 31, 2 ** 32, 2 ** 33 - 2, 2 ** 33 - 1,
-         16842600, 90000, 89999, 90001, 45000, 3 * 2 ** 30, 7 * 2 ** 30 + 0x7FFF]
+         16842600, 90000, 89999, 90001, 45000, 3 * 2 ** 30, 7 * 2 ** 30 + 0x7FFF,
+         2 ** 32 - 1, 2 ** 32 + 1, 7 * 2 ** 30, 2 ** 32 | 1, 2 ** 32 | 2 ** 15, 6 * 2 ** 30, 5 * 2 ** 30 + 12345]
     t += [(1 << k) - 1 for k in range(1, 34)] + [1 << k for k in range(0, 33)]
-    t += [rng.randrange(2 ** 33) for _ in range(ctx.scale(1500, 100000))]
+    t += [rng.randrange(2 ** 33) for _ in range(ctx.scale(6000, 200000))]
     return t
 
 def _field(p):
